@@ -51,7 +51,7 @@ class Deps:
             if l.startswith("{"):
                 try:
                     d = json.loads(l)
-                    if d.get("level") in ("error", "error: internal compiler error"):
+                    if d.get("level") in ("error", "error: internal compiler error") and not (d.get("message") or "").startswith("aborting due to"):
                         diags.append({"code": (d.get("code") or {}).get("code"), "message": d.get("message"), "rendered": (d.get("rendered") or "")[:1500]})
                 except ValueError:
                     pass
